@@ -37,6 +37,10 @@ CLAIMED = {
    technique="TLA+ codec laws (Bits.tla Encode/Decode as byte-order permutations of MSB-first bit patterns) checked by TLC for every width/order/pattern; replay at all bit offsets on the real crate; random values judged by TLC (Trace_Codec)",
    text="TLC checks on the specification, for every width 1..128, both byte orders and a per-width pattern family (plus all values at small widths), that decoding inverts encoding, that big-endian is the MSB-first pattern, that byte-multiple little-endian is the byte reversal and that the short group travels last. Every case is replayed through Bitstr::from_int/to_uint/to_int/from_f*/to_f* at all 8 bit offsets with both stale-bit fillings and through the language words; random 128-bit values are packed/unpacked by the real crate and each event is judged by TLC evaluating the codec.",
    note="Numbers are bit patterns in the specification (no big integers); float NaN payloads through the language-level f32 path are not judged bit-exactly."),
+ "C06": dict(cat="model_checking", design="5/C06",
+   technique="TLA+ spec of the parsing cursor (Cursor.tla: input with origin, absolute offset, LIFO stash, byte order, stack) with C06 as invariants/action properties checked by TLC over all word sequences; every maximal path replayed through eval; seeded sequences validated by TLC (Trace_Cursor)",
+   text="TLC explores all sequences of parsing words (54-word alphabet crossing every cursor word with in-range, boundary, out-of-range and HUGE arguments) from three setups including an unaligned big-endian sub-input and nested suspended inputs, and checks in every state that the offset stays inside the input, remain = end - offset, that a failing word leaves input/offset/stash/rest of the stack untouched, that a successful read returned exactly the bits it moved over and that close-bitstr restores the matching open's pair. Every maximal path is replayed through the real interpreter one word per call with offset, remain, input, stack and error class compared after each word; seeded 30-word sequences are validated by a trace specification that re-executes each word with the specification's operators.",
+   note="HUGE stands for sizes >= 2^63-1 (any error accepted, nothing may move); integer values above 30 bits and float values are judged by C05, not here."),
 }
 
 PENDING_REASON = "check not built yet in this build session (planned, DESIGN.md section 12); no claim is made for it"
